@@ -30,6 +30,23 @@ def concatenate_arrays(*arrays):
     return buffer_as_struct.view('S{0}'.format(total_size))
 
 
+def isin_by_value(key_left, key_right):
+    """
+    Like np.isin, for two key arrays that may be stored with different dtypes.
+    """
+
+    # np.isin removes duplicates from each array first and only then combines
+    # them into one array of the common dtype. Distinct 64-bit integers that
+    # become equal once converted to float64 are then reported as matching each
+    # other, so we convert both arrays to the common dtype ourselves first.
+    if key_left.dtype != key_right.dtype and key_left.dtype.kind in 'iuf' and key_right.dtype.kind in 'iuf':
+        dtype = np.promote_types(key_left.dtype, key_right.dtype)
+        key_left = np.asarray(key_left, dtype=dtype)
+        key_right = np.asarray(key_right, dtype=dtype)
+
+    return np.isin(key_left, key_right)
+
+
 def get_mask_with_key_joins(data, key_joins, subset_state, view=None):
     """
     Given a dataset and a subset state, check whether the subset state
@@ -62,7 +79,7 @@ def get_mask_with_key_joins(data, key_joins, subset_state, view=None):
 
             key_left = data.get_data(cid1[0], view=view)
             key_right = other.get_data(cid2[0], view=mask_right)
-            mask = np.isin(key_left.ravel(), key_right.ravel())
+            mask = isin_by_value(key_left.ravel(), key_right.ravel())
 
             return mask.reshape(key_left.shape)
 
@@ -100,7 +117,7 @@ def get_mask_with_key_joins(data, key_joins, subset_state, view=None):
             mask = np.zeros_like(key_left, dtype=bool)
             for cid2_i in cid2:
                 key_right = other.get_data(cid2_i, view=mask_right).ravel()
-                mask |= np.isin(key_left, key_right)
+                mask |= isin_by_value(key_left, key_right)
 
             return mask.reshape(data.get_data(cid1[0], view=view).shape)
 
@@ -110,7 +127,7 @@ def get_mask_with_key_joins(data, key_joins, subset_state, view=None):
             mask = np.zeros_like(data.get_data(cid1[0], view=view).ravel(), dtype=bool)
             for cid1_i in cid1:
                 key_left = data.get_data(cid1_i, view=view).ravel()
-                mask |= np.isin(key_left, key_right)
+                mask |= isin_by_value(key_left, key_right)
 
             return mask.reshape(data.get_data(cid1[0], view=view).shape)
 
